@@ -113,7 +113,8 @@ def run(ctx: Ctx) -> None:
     from props import lifecyclemodel as lm
     info = lm.check_models(ctx)
     mscs, predicted = lm.model_scenarios(ctx, 'c17')
-    traces = run_scenarios(ctx, [rf.gen_c17(rng, 'c17-%d' % k, ctx.thorough) for k in range(ctx.pick(400, 12000))] + mscs + sync)
+    early = [rf.gen_c17_early(rng, 'c17e-%d' % k) for k in range(ctx.pick(24, 300))]
+    traces = run_scenarios(ctx, [rf.gen_c17(rng, 'c17-%d' % k, ctx.thorough) for k in range(ctx.pick(400, 12000))] + early + mscs + sync)
     d = lm.drift(traces, predicted)
     for x in d[:5]:
         print('MODEL-DRIFT property=C17 scenario=%s real multicasts %s, model predicts %s (evidence, not a verdict: the exhaustively '
